@@ -26,7 +26,7 @@ for s in seed1 seed2; do
   k=$((k+1))
 done
 if [ -d "$wt/unchanged" ]; then
-  u=/verif/seeded/UNCHANGED/$id/${ROUND:-round6}; mkdir -p "$u"
+  u=/verif/seeded/UNCHANGED/$id/${ROUND:-round7}; mkdir -p "$u"
   for f in "$wt"/unchanged/*; do
     b=$(basename "$f")
     case "$b" in go.mod|go.sum) ;; *.go) cp "$f" "$u/$b.txt" ;; *) [ -f "$f" ] && cp "$f" "$u/$b" ;; esac
